@@ -168,7 +168,11 @@ class Ctx:
             return []
         for ln in lines:
             assert "\n" not in ln
-        r = subprocess.run([DRIVER], input="\n".join(lines) + "\n", capture_output=True, text=True)
+        def lim():
+            import resource
+            resource.setrlimit(resource.RLIMIT_AS, (8 << 30, 8 << 30))
+        r = subprocess.run([DRIVER], input="\n".join(lines) + "\n", capture_output=True, text=True,
+                           timeout=600, preexec_fn=lim)
         if r.returncode != 0:
             raise RuntimeError("driver failed: " + r.stderr[-500:])
         out = r.stdout.split("\n")
